@@ -382,6 +382,10 @@ def h_tile_sources(ax, block):
     """every full-resolution tile the header announces has a source block to be compressed from:
     the tile grid of the (padded) level-0 image equals the block grid of the image re-chunked to
     the tile size (_compress_tiles builds one task per announced tile, reading block (y, x))"""
+    if not symx.concrete_mode():
+        # the real _compress_tiles on long thin images (dask stand-ins incl. dask.array.pad): the
+        # block grid of the array handed to the graph is the announced tile grid
+        return h_graph(ax, "wide")
     import odc.geo.cog._tifffile as tf
     import odc.geo.geobox as gbx
     from affine import Affine
@@ -542,7 +546,19 @@ def _dask_stubs():
             return dsk
 
     hlg.HighLevelGraph = HighLevelGraph
-    mods = {"dask.bag": bag, "dask.base": base, "dask.highlevelgraph": hlg}
+    arr = types.ModuleType("dask.array")
+
+    def pad(a, pad_width, mode="constant", constant_values=0):
+        # dask.array.pad contract: every axis grows by its (before, after) widths
+        assert mode == "constant"
+        new_shape = tuple(n + b + e for n, (b, e) in zip(a.shape, pad_width))
+        out = _FakeDask(new_shape, a.chunksize, name=f"pad({a.name})")
+        out.pad_value = constant_values
+        out.pad_before = tuple(b for b, _ in pad_width)
+        return out
+
+    arr.pad = pad
+    mods = {"dask.bag": bag, "dask.base": base, "dask.highlevelgraph": hlg, "dask.array": arr}
     saved = {k: sys.modules.get(k) for k in mods}
     saved_attr = {k.split(".")[1]: getattr(dask, k.split(".")[1], None) for k in mods}
     sys.modules.update(mods)
@@ -590,7 +606,8 @@ def h_graph(ax, mode):
     import odc.geo.geobox as gbx
     from affine import Affine
 
-    ny, nx = Int("ny", 1, 64), Int("nx", 1, 64)
+    wide = mode == "wide"  # long thin images: the layout's padding can add whole rows of tiles
+    ny, nx = (Int("ny", 1, 48), Int("nx", 1, 400)) if wide else (Int("ny", 1, 64), Int("nx", 1, 64))
     ns = {"YX": 1, "YXS": 3, "SYX": 3 if mode != "single_chunk" else 2}[ax]
     shape = {"YX": (ny, nx), "YXS": (ny, nx, ns), "SYX": (ns, ny, nx)}[ax]
     if ax == "SYX":
@@ -841,11 +858,11 @@ OBLIGATIONS = [
        descr="_make_empty_cog on every image shape (single-row/column and narrower-than-a-tile included): returns; padded shape per layout rule; overviews exactly half; per-level GeoBoxes; one page per level with the level's shape and tile",
        functions=("odc.geo.cog._tifffile._make_empty_cog", "odc.geo.cog._shared.compute_cog_spec", "odc.geo.types.Shape2d.shrink2", "odc.geo.geobox.GeoBox.zoom_to", "odc.geo.geobox.GeoBox.expand"),
        bounds="image sides 1..200, block from grid (16/32/64), layouts YX / YXS(3) / SYX(2)", stubs=("tifffile.TiffWriter recorder", "geotiff_metadata (rasterio round trip) recorder"), setup=setup_tifffile, timeout_ms=20000),
-    Ob("L10_tile_sources", h_tile_sources, tiered([dict(ax="YX", block=16)], [dict(ax=a, block=b) for a in ("YX", "YXS", "SYX") for b in (16, 64, 256)]),
-       descr="every full-resolution tile announced by the header has a source block in the image re-chunked to the tile size (padding must not add a whole tile row/column that nothing fills)",
-       functions=("odc.geo.cog._tifffile._make_empty_cog", "odc.geo.cog._shared.CogMeta.chunked", "odc.geo.cog._tifffile._compress_tiles"),
-       bounds="image sides 1..4096, block from grid", stubs=("tifffile.TiffWriter recorder", "geotiff_metadata recorder", "dask re-chunk contract: ceil(N/c) blocks per axis (the replay builds the real dask graph; dask.base.quote aliased to dask.core.quote, which this dask release moved)"),
-       setup=setup_tifffile, timeout_ms=20000),
+    Ob("L10_tile_sources", h_tile_sources, tiered([dict(ax="YX", block=16)], [dict(ax=a, block=16) for a in ("YX", "YXS", "SYX")]),
+       descr="long thin images (the layout's padding adds whole rows or columns of tiles): the real save_cog_with_dask / _compress_tiles hand the graph an array whose block grid is the announced tile grid, one task per announced tile reading the block of that tile",
+       functions=("odc.geo.cog._tifffile.save_cog_with_dask", "odc.geo.cog._tifffile._compress_tiles", "odc.geo.cog._tifffile._make_empty_cog", "odc.geo.cog._shared.CogMeta.chunked"),
+       bounds="image 1..48 x 1..400 pixels symbolic, 16-pixel tiles (the padding crosses a tile boundary from 5 overview levels on)", stubs=("tifffile.TiffWriter recorder", "geotiff_metadata recorder", "dask stand-ins incl. dask.array.pad (every axis grows by its pad widths) and rechunk (ceil(N/c) blocks per axis); the replay builds the real dask graph"),
+       setup=setup_tifffile, timeout_ms=20000, deadline_s=900.0),
     Ob("L11_task_graph", h_graph, fixed(dict(ax="YX", mode="x"), dict(ax="YXS", mode="x"), dict(ax="SYX", mode="per_plane"), dict(ax="SYX", mode="single_chunk"), dict(ax="YX", mode="irregular_chunks"), dict(ax="YXS", mode="irregular_chunks"), dict(ax="YXS", mode="band_chunked"), dict(ax="YX", mode="default_blocksize_1"), dict(ax="YX", mode="default_blocksize_16"), dict(ax="SYX", mode="default_blocksize_2")),
        descr="save_cog_with_dask/_compress_tiles: distinct task names per (level, plane), task i compresses the source block of tile i, tiles labelled (level, plane, y, x); write order = overviews smallest first, then full resolution",
        functions=("odc.geo.cog._tifffile.save_cog_with_dask", "odc.geo.cog._tifffile._compress_tiles", "odc.geo.cog._shared.CogMeta.tidx"),
